@@ -316,6 +316,20 @@ def _execute(record, cfg, root):
     opts = {"io_seam": bool(record.get("io_seam", True)), "line_clock": True}
     if not opts["io_seam"]:
         stats["probes"]["production_hdf5_driver_runs"] = 1
+    earlier = cfg.get("earlier_run")
+
+    def run_earlier(workdir):
+        # an EARLIER, completed run that used the same output prefix (a user re-running a job in the same directory): it
+        # leaves its own {prefix}.restart.pt behind
+        ecfg = {k: v for k, v in cfg.items() if k not in ("earlier_run", "pre_run")}
+        ecfg.update(steps=int(earlier["steps"]), seed=int(cfg.get("seed") or 0) + 17)
+        r0 = mdsim.run_incarnation(ecfg, workdir, 90, None, "fresh", opts)
+        if r0["status"] != 0:
+            raise core.HarnessError(f"earlier run with the same prefix failed: {r0.get('exc')}")
+
+    if earlier:
+        run_earlier(refdir)
+        stats["probes"]["prefix_used_by_an_earlier_run"] = 1
     ref = mdsim.run_incarnation(cfg, refdir, 0, None, "fresh", opts)
     if ref["status"] != 0:
         raise core.HarnessError(f"fault-free reference run failed: {ref.get('exc')} cfg={json.dumps(cfg)}")
@@ -346,6 +360,8 @@ def _execute(record, cfg, root):
 
     run = os.path.join(root, "run")
     os.makedirs(run)
+    if earlier:
+        run_earlier(run)
     ck_path = os.path.join(run, "t.restart.pt")
     history, torn_files, crash_sigs = [], set(), []
     inc, mode, done, durable_any = 0, "fresh", False, False
@@ -568,6 +584,11 @@ class C10(core.Check):
                     cfg.pop("nonadiabatic", None)  # defaults: crossing detection on, which needs the previous step's amplitudes
             io_seam = rng.random() >= 0.15
             plan = gen_fault_plan(rng, io_seam)
+            if i >= 5 and cfg["driver"] == "stub" and int(cfg["out"]["ckpt"]) >= 2 and rng.random() < 0.04:
+                # the output prefix was used by an earlier, completed run; this run dies BEFORE its own first checkpoint: a
+                # checkpoint found on disk must never be taken for this run's
+                cfg["earlier_run"] = {"steps": 2 * int(cfg["out"]["ckpt"])}
+                plan = [{"kind": "soft@step", "stratum": "uniform", "u": [0.0, 0.0, 0.9, 0.95], "torn": None, "in_init": False}]
             if i == 3:
                 # (the crash lands after the second checkpoint, so that there is something to resume from)
                 plan = [{"kind": "soft@step", "stratum": "uniform", "u": [0.9, 0.0, 0.9, 0.0], "torn": None, "in_init": False}]
